@@ -39,6 +39,7 @@ ENV_FOREIGN = {'env': {'LANG': 'de_DE.UTF-8', 'LC_ALL': 'de_DE.UTF-8',
 W_ERROR = {'warnings': 'error', 'pyflags': ['-bb']}
 LOG_DEBUG = {'logging': 'debug'}
 PY_O = {'pyflags': ['-O']}
+PY_OO = {'pyflags': ['-OO']}      # docstrings are None as well
 
 
 def skip_under_config(index):
@@ -391,7 +392,7 @@ def encode_under_context(fn, v, ctx):
         return call(fn, v)
 
 
-ALL_CONFIGS = [W_ERROR, LOG_DEBUG, PY_O, ENV_FOREIGN]
+ALL_CONFIGS = [W_ERROR, LOG_DEBUG, PY_O, ENV_FOREIGN, PY_OO]
 
 
 def disturb_encoder(rnd, k=2):
